@@ -16,6 +16,7 @@ open RV.C07
 #print axioms n3_roundtrip_partial
 #print axioms n3_roundtrip_any_lexical
 #print axioms n3_roundtrip_witness
+#print axioms n3_roundtrip_nsm
 #print axioms n3_guard
 #print axioms ws_idempotent
 #print axioms reduce_rebuild
